@@ -991,8 +991,23 @@ func (s *storage) Fetch(ctx context.Context, br blob.Ref) (io.ReadCloser, uint32
 		return nil, 0, err
 	}
 	if !m.exists || !m.isPacked() {
-		return s.small.Fetch(ctx, br)
+		rc, size, err := s.small.Fetch(ctx, br)
+		if !errors.Is(err, os.ErrNotExist) {
+			return rc, size, err
+		}
+		// Not in small. It may have been packed since the meta lookup
+		// above (the meta rows are committed before the loose copies
+		// are deleted), so look again before reporting it absent.
+		m, merr := s.getMetaRow(br)
+		if merr != nil || !m.isPacked() {
+			return nil, 0, err
+		}
+		return s.fetchPacked(ctx, m)
 	}
+	return s.fetchPacked(ctx, m)
+}
+
+func (s *storage) fetchPacked(ctx context.Context, m meta) (io.ReadCloser, uint32, error) {
 	rc, err := s.large.SubFetch(ctx, m.largeRef, int64(m.largeOff), int64(m.size))
 	if err != nil {
 		return nil, 0, err
@@ -1095,7 +1110,37 @@ func (s *storage) StatBlobs(ctx context.Context, blobs []blob.Ref, fn func(blob.
 	if len(trySmall) == 0 {
 		return nil
 	}
-	return s.small.StatBlobs(ctx, trySmall, fn)
+	var (
+		inSmallMu sync.Mutex
+		inSmall   = map[blob.Ref]bool{}
+	)
+	if err := s.small.StatBlobs(ctx, trySmall, func(sb blob.SizedRef) error {
+		inSmallMu.Lock()
+		inSmall[sb.Ref] = true
+		inSmallMu.Unlock()
+		return fn(sb)
+	}); err != nil {
+		return err
+	}
+	// A blob found neither in the meta index (round one) nor in small may
+	// have been packed in between: the meta rows are committed before the
+	// loose copies are deleted. Look at the meta index once more before
+	// leaving it out.
+	for _, br := range trySmall {
+		if inSmall[br] {
+			continue
+		}
+		m, err := s.getMetaRow(br)
+		if err != nil {
+			return err
+		}
+		if m.exists {
+			if err := fn(blob.SizedRef{Ref: br, Size: m.size}); err != nil {
+				return err
+			}
+		}
+	}
+	return nil
 }
 
 func (s *storage) EnumerateBlobs(ctx context.Context, dest chan<- blob.SizedRef, after string, limit int) (err error) {
